@@ -253,6 +253,19 @@ pub fn case_lines(ops: &[Op]) -> Vec<String> {
     v
 }
 
+pub fn abyss_case(n: usize) -> Vec<Op> {
+    let mut v = vec![];
+    for i in 0..n {
+        v.push(Op::Sys { tag: i, name: format!("d{}", i), deps: vec![], r: vec![], w: vec![], t: 1 });
+        v.push(Op::Barrier);
+    }
+    v.push(Op::Sys { tag: n, name: "A".into(), deps: vec![], r: vec![], w: vec![], t: 3 });
+    v.push(Op::Sys { tag: n + 1, name: "B".into(), deps: vec!["A".into()], r: vec![], w: vec![], t: 1 });
+    v.push(Op::Sys { tag: n + 2, name: "C".into(), deps: vec![format!("d{}", n - 1), "B".into()], r: vec![], w: vec![], t: 1 });
+    v.push(Op::Sys { tag: n + 3, name: "D".into(), deps: vec![], r: vec![], w: vec![], t: 1 });
+    v
+}
+
 pub fn run(args: &Args, rep: &mut Report) {
     let seed = args.num("seed", 1);
     let cases = args.num("cases", 400);
@@ -262,10 +275,22 @@ pub fn run(args: &Args, rep: &mut Report) {
     let pool = make_pool(2);
     rep.rule = "registration sequences from the profile-driven generator (plus corpus / small scope); distinct = distinct executed layouts (tree incl. batches); non-trivial = at least two stages, a joined group or a batch".into();
     let mut todo: Vec<(String, Vec<Op>)> = vec![];
+    let mut replay_abyss = 0usize;
     if let Some(f) = args.get("replay") {
         let text = std::fs::read_to_string(&f).expect("replay file");
         let lines: Vec<String> = text.lines().map(|s| s.to_string()).collect();
-        todo.push((format!("replay:{}", f), Op::parse(&lines)));
+        if let Some(n) = lines.first().and_then(|l| l.strip_prefix("abyss ")).and_then(|x| x.trim().parse::<usize>().ok()) {
+            replay_abyss = n;
+        } else {
+            todo.push((format!("replay:{}", f), Op::parse(&lines)));
+        }
+    }
+    if replay_abyss > 0 {
+        let res = eval_case(&abyss_case(replay_abyss), None, &pool);
+        rep.case(&format!("abyss {}", replay_abyss), true);
+        for (p, what) in &res.impl_v {
+            rep.violate(p, "impl", "", format!("{} [abyss {}]", what, replay_abyss), vec![format!("abyss {}", replay_abyss)]);
+        }
     }
     if let Some(dir) = args.get("corpus") {
         if let Ok(rd) = std::fs::read_dir(&dir) {
@@ -291,6 +316,27 @@ pub fn run(args: &Args, rep: &mut Report) {
             }
             let mut g = Gen::new(Rng::new(seed, c), cfg);
             todo.push((format!("gen:{}:{}:{}", prof, seed, c), g.case()));
+        }
+    }
+    // beyond the scale at which the model can be run alongside (tens of thousands of stages): the
+    // implementation-side oracles alone, on one generated plan: `n` x (system; barrier), then a few
+    // systems with dependencies on systems before and after the last barrier
+    let abyss = args.num("abyss", 0);
+    if abyss > 0 && args.get("replay").is_none() {
+        let ops = abyss_case(abyss as usize);
+        let t0 = std::time::Instant::now();
+        let res = eval_case(&ops, None, &pool);
+        rep.case(&format!("abyss {}", abyss), true);
+        rep.add("abyss_registrations", Op::count(&ops) as u64);
+        rep.add("abyss_ms", t0.elapsed().as_millis() as u64);
+        if let Some(l) = &res.layout {
+            rep.maxi("max_stages", l.stages.len() as u64);
+        }
+        let mut seen: std::collections::BTreeSet<String> = Default::default();
+        for (p, what) in &res.impl_v {
+            if seen.insert(p.clone()) {
+                rep.violate(p, "impl", "", format!("{} [abyss {}: {} x (system; barrier), then A, B after A, C after the last system before the barrier and after B]", what, abyss, abyss), vec![format!("abyss {}", abyss)]);
+            }
         }
     }
     let mut reported: std::collections::BTreeSet<String> = Default::default();
